@@ -31,13 +31,13 @@ type focus struct {
 
 var focuses = []focus{
 	{name: "storage", sstore: 30, sstoreSeq: 14, sload: 10, call: 10, create: 2, logw: 3, obsAcc: 3, obsEnv: 1, arith: 2, loop: 6, cond: 6,
-		tStop: 10, tReturn: 55, tRevert: 15, tKill: 4, tInvalid: 3, tSpin: 8},
+		tStop: 10, tReturn: 60, tRevert: 15, tKill: 4, tInvalid: 3, tSpin: 4},
 	{name: "calls", sstore: 14, sstoreSeq: 4, sload: 6, call: 36, create: 4, logw: 5, obsAcc: 8, obsEnv: 2, arith: 2, loop: 4, cond: 6,
-		tStop: 8, tReturn: 50, tRevert: 20, tKill: 8, tInvalid: 4, tSpin: 6},
+		tStop: 8, tReturn: 54, tRevert: 20, tKill: 8, tInvalid: 4, tSpin: 3},
 	{name: "lifecycle", sstore: 16, sstoreSeq: 3, sload: 8, call: 16, create: 22, logw: 3, obsAcc: 12, obsEnv: 1, arith: 1, loop: 2, cond: 5,
-		tStop: 8, tReturn: 42, tRevert: 12, tKill: 30, tInvalid: 2, tSpin: 4},
+		tStop: 8, tReturn: 46, tRevert: 12, tKill: 28, tInvalid: 2, tSpin: 3},
 	{name: "mixed", sstore: 12, sstoreSeq: 5, sload: 8, call: 14, create: 8, logw: 8, obsAcc: 10, obsEnv: 8, arith: 8, loop: 5, cond: 6,
-		tStop: 10, tReturn: 50, tRevert: 14, tKill: 10, tInvalid: 4, tSpin: 6},
+		tStop: 10, tReturn: 54, tRevert: 14, tKill: 10, tInvalid: 4, tSpin: 3},
 }
 
 // pool is the generator's view of interesting addresses.
@@ -124,7 +124,10 @@ func (g *progGen) pushSlot(c *ctr) {
 
 // pushAddrExpr pushes an address.
 func (g *progGen) pushAddrExpr(c *ctr) {
-	switch g.w(30, 10, 8, 8, 4, 14, 12, 8, 4) {
+	switch g.w(30, 10, 8, 8, 4, 14, 12, 8, 4, 4) {
+	case 9:
+		c.a.pushAddr(preRipemd) // a zero-value call touches it and that touch survives reverts
+		return
 	case 0:
 		if len(g.p.contracts) > 0 {
 			c.a.pushAddr(g.p.contracts[g.c.Int(0, len(g.p.contracts)-1, "ctr")])
